@@ -184,6 +184,27 @@ func (r *renderer) list(gg []glyph.ID) {
 			n := rapid.IntRange(2, run).Draw(r.t, "rangeLen")
 			r.glyphRef(gg[i], false)
 			r.w(rapid.SampledFrom([]string{"-", " - ", " -", "- "}).Draw(r.t, "hyphen"))
+			// the end of the range may be the first character of a string that
+			// goes on with further glyphs of the list (a string stands for its
+			// glyphs one after the other; the hyphen connects the glyph before
+			// it with the glyph behind it)
+			m := 0
+			for i+n-1+m < len(gg) && len(r.byGid[gg[i+n-1+m]]) > 0 {
+				m++
+			}
+			if m >= 2 && r.chance("rangeEndsInString", 3) {
+				k := rapid.IntRange(2, m).Draw(r.t, "rangeStringLen")
+				r.w(`"`)
+				for q := 0; q < k; q++ {
+					c, _ := r.runeFor(gg[i+n-1+q])
+					r.w(quoteRune(c, r.t))
+				}
+				r.w(`"`)
+				i += n - 1 + k
+				r.used["range"] = true
+				r.used["range-ends-in-multi-glyph-string"] = true
+				continue
+			}
 			r.glyphRef(gg[i+n-1], true)
 			i += n
 			r.used["range"] = true
